@@ -195,7 +195,8 @@ fn run_actions(actions: &[String]) -> ! {
                     log_line(&format!("child-start {} pid={} pgid={} ppid={}", now_ns(), unsafe { getpid() }, unsafe { getpgid(0) }, unsafe { getppid() }));
                     for s in [1usize, 2, 3, 15] { unsafe { SIG_MODE[s] = 0; } }
                     let end = now_ns() + hold as u128 * 1_000_000;
-                    while now_ns() < end { unsafe { usleep(20_000) }; }
+                    // gaps in the descendant's own clock (it was stopped) are logged, as in `hang`
+                    while now_ns() < end { let t0 = now_ns(); unsafe { usleep(20_000) }; let dt = now_ns() - t0; if dt > 80_000_000 { raw_log(b"gap", dt / 1_000_000); } }
                     raw_log(b"end-exit", 0);
                     unsafe { _exit(0) }
                 }
